@@ -68,9 +68,12 @@ pub fn check(ctx: &Ctx, t: &mut Tape<'_>, r: &mut Report) -> CheckResult {
     let model = KsModel::new(c.as_ref(), kind, &iv);
     // whole blocks from a block boundary can also be driven through the block-level core directly
     let via_core = t.chance(64);
+    // every constructor path of the wrapper and of the core must start the same counter sequence
+    let how = ctor_pick(t);
+    r.label_if(how != Ctor::New, "slice-or-inner-constructor");
     if via_core && off == 0 && len % bs == 0 {
         r.label("core-level");
-        let mut core = f.make_core(Ctor::New, &key, &iv).expect("harness: ctor");
+        let mut core = f.make_core(how, &key, &iv).expect("harness: ctor");
         core.set_block_pos(blk).ok_or_else(|| Violation { sig: format!("C04/not-seekable/{ty}"), msg: "core cannot be positioned".into() })?;
         let mut out = Vec::new();
         let mut o = 0;
@@ -94,7 +97,7 @@ pub fn check(ctx: &Ctx, t: &mut Tape<'_>, r: &mut Report) -> CheckResult {
     // (far from the end of the keystream only: near it that provided method is known finding F3)
     if via_core && off == 0 && len % bs != 0 && lim - blk > 1000 {
         r.label("core-partial");
-        let mut core = f.make_core(Ctor::New, &key, &iv).expect("harness: ctor");
+        let mut core = f.make_core(how, &key, &iv).expect("harness: ctor");
         core.set_block_pos(blk).ok_or_else(|| Violation { sig: format!("C04/not-seekable/{ty}"), msg: "core cannot be positioned".into() })?;
         let mut out = prefill(pre.0, pre.1, &data);
         ensure!(core.try_apply_partial(&data, &mut out).is_ok(), format!("C04/partial-rejected/{}", f.core_type_name()), "try_apply_keystream_partial of {len} bytes at block {blk}, far from the end, failed");
@@ -102,7 +105,7 @@ pub fn check(ctx: &Ctx, t: &mut Tape<'_>, r: &mut Report) -> CheckResult {
         ensure_eq_bytes!(out, want, format!("C04/output-core-partial/{}", f.core_type_name()), "{len} bytes from block {blk} through try_apply_keystream_partial");
         return Ok(());
     }
-    let mut s = position_stream(f, &model, &key, &iv, p, bs, reach, "C04")?;
+    let mut s = position_stream(f, &model, &key, &iv, p, bs, reach, how, "C04")?;
     let out = run_stream(s.as_mut(), &data, &cuts, &kinds, pre).map_err(|v| with_sig("C04", &ty, v))?;
     let want = model.apply_at(blk, off, &data);
     ensure_eq_bytes!(out, want, format!("C04/output/{ty}"), "{len} bytes from block {blk} offset {off} (counter field {first:#x}..{last:#x})");
